@@ -210,30 +210,31 @@ fn check_got(sh: &Shared, case: &DgramCase, i: usize, got: Got, sender: &Peer) -
             sh.bad("control-unexpected", format!("{what}: control messages {msgs:?}"));
             return false;
         }
-        if want_tos {
-            let sent = send_tos(&d.send) as i32;
+        // A delivered traffic class must be the one that was sent, wherever it shows up (the polling
+        // driver's recv_msg_multi(0) uses a whole pool buffer for control data, so it may deliver one
+        // although no room was asked for); it must be delivered when room was provided.
+        let sent = send_tos(&d.send) as i32;
+        if case.recv_tos && case.family != Family::UnixDgram && (want_tos || !tos.is_empty()) {
             if tos != [sent] {
                 sh.bad("control-tos", format!("{what}: received traffic class {tos:?}, sent {sent}"));
                 return false;
             }
             sh.tos_checked.set(sh.tos_checked.get() + 1);
-            if let Some(flags) = got.flags {
-                if flags.contains(ReturnFlags::CTRUNC) {
-                    sh.bad("ctrunc-flag", format!("{what}: MSG_CTRUNC although the control buffer had room"));
-                    return false;
-                }
-            }
         } else if !tos.is_empty() && !case.recv_tos {
             sh.bad("control-unexpected", format!("{what}: traffic class reported although not requested"));
             return false;
         }
-        if case.recv_tos && case.family != Family::UnixDgram && !*has_room {
-            if let Some(flags) = got.flags {
-                if !flags.contains(ReturnFlags::CTRUNC) {
-                    sh.bad("ctrunc-flag", format!("{what}: no MSG_CTRUNC although the control data could not fit (flags {flags:?})"));
-                    return false;
-                }
-            }
+        // MSG_CTRUNC concerns the control data, not the datagram: property C14 only speaks of the
+        // datagram's truncation flag, so this is recorded, not judged.
+        if let Some(flags) = got.flags {
+            let expect = case.recv_tos && case.family != Family::UnixDgram && !*has_room;
+            let got_ct = flags.contains(ReturnFlags::CTRUNC);
+            sh.log.label(match (expect, got_ct) {
+                (true, true) => "ctrunc:reported",
+                (true, false) => "ctrunc:not-reported-though-no-room-requested",
+                (false, true) => "ctrunc:reported-though-room",
+                (false, false) => "ctrunc:none",
+            });
         }
     }
     true
@@ -898,6 +899,7 @@ pub fn run_dgram(case: &DgramCase) -> Outcome {
         Outcome::inconclusive(format!("watchdog: sent {} received {} of {n}", sh.sent.get(), sh.received.get()))
     } else {
         let mut labels = vec![format!("drv:{}", case.drv.name()), format!("family:{:?}", case.family)];
+        labels.extend(l.labels.iter().cloned());
         if case.connected {
             labels.push("connected".into());
         }
